@@ -60,12 +60,17 @@ Lemma json_c_visit_eq : forall userfunc v,
   (rev tr,
    if (ret =? RET_CONTINUE) || (ret =? RET_SKIP) || (ret =? RET_POP) || (ret =? RET_STOP)
    then 0 else RET_ERROR).
-Proof. intros. unfold json_c_visit. destruct (visit _ _ _ _ _ _ _). rewrite <- rev_alt. reflexivity. Qed.
+Proof. intros. unfold json_c_visit, json_c_visit_ff. destruct (visit _ _ _ _ _ _ _). rewrite <- rev_alt. reflexivity. Qed.
 
 Lemma spec_visit_eq : forall userfunc v,
   spec_visit userfunc v =
   let '(tr, res) := machine userfunc (flatten v [] PNone KNone 0) Run [] in (rev tr, res).
 Proof. intros. unfold spec_visit. destruct (machine _ _ _ _). rewrite <- rev_alt. reflexivity. Qed.
+
+(* the reserved argument future_flags has no influence on the traversal *)
+Lemma visit_ignores_future_flags : forall userfunc v ff,
+  json_c_visit_ff userfunc v ff = json_c_visit userfunc v.
+Proof. reflexivity. Qed.
 
 Section WithCallback.
   Variable userfunc : list event -> Z.
@@ -848,15 +853,15 @@ Qed.
    is the reference traversal of its own tree with its own callback *)
 Lemma run_prog_conforms : forall p, run_prog p = spec_prog p.
 Proof.
-  fix IH 1. intros [v codes nested]. cbn [run_prog spec_prog].
-  rewrite visit_conforms_tr. f_equal.
+  fix IH 1. intros [v ff codes nested]. cbn [run_prog spec_prog].
+  rewrite visit_ignores_future_flags, visit_conforms_tr. f_equal.
   induction nested as [|[k q] t IHt]; [reflexivity|].
   cbn [fst snd]. rewrite IHt, IH. reflexivity.
 Qed.
 
 (* in particular the outer traversal does not depend on what its callback runs meanwhile *)
-Lemma outer_unaffected : forall v codes nested,
-  hd None (run_prog (Prog v codes nested)) = Some (json_c_visit (sched_fun codes) v).
+Lemma outer_unaffected : forall v ff codes nested,
+  hd None (run_prog (Prog v ff codes nested)) = Some (json_c_visit (sched_fun codes) v).
 Proof. reflexivity. Qed.
 
 Lemma run_progs_conforms : forall ps, run_progs ps = flat_map spec_prog ps.
@@ -868,8 +873,8 @@ Qed.
 (* a callback that, in its third call (the first call on a[0]), traverses another tree whose
    own callback answers ERROR: the outer traversal is the one of [visit_nontrivial] *)
 Lemma prog_nontrivial :
-  run_prog (Prog demo_tree [0; 0; 767; 0; 7547; 7867]
-              [(3, Prog (JArr [JNull; JBool true]) [0; -1] []); (9, Prog JNull [] [])]) =
+  run_prog (Prog demo_tree 2 [0; 0; 767; 0; 7547; 7867]
+              [(3, Prog (JArr [JNull; JBool true]) (-1) [0; -1] []); (9, Prog JNull 0 [] [])]) =
   [ Some ([ mkev [] 0 PNone KNone 0;
             mkev [0] 0 PObj (KKey [97]) 1;
             mkev [0; 0] 0 PArr (KIdx 0) 2;
@@ -879,3 +884,49 @@ Lemma prog_nontrivial :
     Some ([ mkev [] 0 PNone KNone 0; mkev [0] 0 PArr (KIdx 0) 1 ], -1);
     None ].
 Proof. vm_compute. reflexivity. Qed.
+
+(* ==================================================================== the flags of every call *)
+Definition flags_ok (e : event) : Prop := ev_flags e = 0 \/ ev_flags e = JSON_C_VISIT_SECOND.
+
+Lemma flat_members_Forall : forall {A} (P : item -> Prop) (f : A -> Z -> list item) l i,
+  Forall (fun c => forall i, Forall P (f c i)) l -> Forall P (flat_members f l i).
+Proof.
+  intros A P f l; induction l as [|c l IH]; intros i H; simpl; [constructor|].
+  inversion H; subst. apply Forall_app; split; auto.
+Qed.
+
+Lemma flatten_flags : forall v path pk ki d,
+  Forall (fun it => flags_ok (it_ev it)) (flatten v path pk ki d).
+Proof.
+  induction v using jv_ind'; intros path pk ki d; simpl;
+    try (constructor; [left; reflexivity|constructor]).
+  - constructor; [left; reflexivity|]. apply Forall_app; split.
+    + apply flat_members_Forall. eapply Forall_impl; [|exact H]. intros c Hc i. apply Hc.
+    + constructor; [right; reflexivity|constructor].
+  - constructor; [left; reflexivity|]. apply Forall_app; split.
+    + apply flat_members_Forall. eapply Forall_impl; [|exact H]. intros c Hc i. apply Hc.
+    + constructor; [right; reflexivity|constructor].
+Qed.
+
+Lemma machine_flags : forall userfunc its m tr,
+  Forall (fun it => flags_ok (it_ev it)) its -> Forall flags_ok tr ->
+  Forall flags_ok (fst (machine userfunc its m tr)).
+Proof.
+  intros userfunc its; induction its as [|it rest IH]; intros m tr Hi Ht; simpl; auto.
+  inversion Hi; subst.
+  destruct (passed_over m it); [apply IH; auto|].
+  destruct (react it (classify (userfunc (it_ev it :: tr)))).
+  - apply IH; auto.
+  - simpl. constructor; auto.
+Qed.
+
+Lemma flags_are_0_or_second : forall userfunc v future_flags e,
+  In e (fst (json_c_visit_ff userfunc v future_flags)) -> flags_ok e.
+Proof.
+  intros userfunc v ff e Hin.
+  rewrite visit_ignores_future_flags, visit_conforms_tr, spec_visit_eq in Hin.
+  pose proof (machine_flags userfunc (flatten v [] PNone KNone 0) Run []
+                (flatten_flags v [] PNone KNone 0) (Forall_nil _)) as F.
+  destruct (machine userfunc (flatten v [] PNone KNone 0) Run []) as [tr r].
+  simpl in Hin, F. apply in_rev in Hin. rewrite Forall_forall in F. auto.
+Qed.
